@@ -1,8 +1,9 @@
 /-
 C16 — Each assigned beacon duty is dispatched exactly once, at its slot.
-Property theorems only.  Model: Ssv/Model/Duties.lean (attester / proposer / sync-committee handler, duty store);
-the four clauses as checks over the output atoms of a run: Ssv/Proofs/DutiesSpec.lean; helper lemmas and the
-inductive invariants: Ssv/Proofs/Duties*.lean.
+Property theorems only.  Model: Ssv/Model/Duties.lean (attester / proposer / sync-committee handler and duty store,
+the code as it is after fix 1e0cc1057; the handlers before the fix are kept as `stepOld`/`runOld`); the four clauses as
+checks over the output atoms of a run: Ssv/Proofs/DutiesSpec.lean; helper lemmas and the inductive invariants:
+Ssv/Proofs/Duties*.lean.
 
 Every theorem quantifies over ALL network parameters, initial clocks, initial fetch outcomes and ALL event lists
 (ticks, reorg notices, indices-change notices, each tick paired with arbitrary fetch outcomes `noIdx | fail | ok`),
@@ -13,18 +14,14 @@ LEVEL: partial (DESIGN §7.16).  Outside the model: wall-clock tick timing (the 
 exactly-once clause only speaks about ticks whose clock equals their slot), the `ExecuteDuties` goroutines and the
 one-third-slot wait; slot-ticker uniqueness is the hypothesis `ticksIncreasing`.
 
-What is FALSE of the code (witnesses below, replayed on the real handlers by the harness, corpus/C16/*):
-* exactly-once-if-fetched, attester: a reorg(current) — or indices-change — notice handled after the last tick of
-  epoch e and before the first tick of e+1 resets the already fetched duties of e+1; the first tick of e+1
-  executes before it fetches, and after a reorg(current) nothing re-fetches e+1 at all;
-* exactly-once-if-fetched, sync committee: the same at a period boundary (the whole next period is lost);
-* only-latest, attester: `fetchAndProcessDuties` adds to the epoch's map without resetting it; if a notice is
-  handled out of slot order (a reorg notice older than the last tick) an epoch is fetched twice without a reset in
-  between and duties of the superseded assignment are dispatched.
+Hypothesis of the exactly-once theorem, `envOK`: tick slots strictly increase and NO TICK IS HANDLED AFTER AN EVENT THAT
+CARRIES A LATER SLOT.  Notices may be handled arbitrarily late (a reorg / indices-change notice for slot 63 after the
+tick of slot 64 or 70).  What it excludes is a tick that the select loop takes after a notice of a later slot; for that
+order the statement is still FALSE of the fixed code (`C16_dispatch_exactly_once_if_fetched_anyorder_refuted`:
+a reorg(previous) notice of the first half of epoch e+1 handled before the last tick of epoch e).
 -/
 import Ssv.Proofs.DutiesLiveProp
 import Ssv.Proofs.DutiesLiveAtt
-import Ssv.Proofs.DutiesRepair
 
 namespace Ssv.Duties
 
@@ -51,18 +48,27 @@ theorem C16_tie_constants :
     `epoch-1`, `period±1`); log strings are ignored -/
 theorem C16_tie_handler_arithmetic :
     noStr Gen.lits_att_HandleDuties =
-      ["u<-", "u<-", "+", "%", "32", "1", "==", "%", "-", "/", "2", "2", "==", "%", "-", "1", "u<-", "+", "%", "32",
-       "1", "+", "1", "+", "1", "u<-", "+", "%", "32", "1", "+", "1"] ∧
+      ["u<-", "u<-", "+", "%", "32", "1", "&&", "||", "u!", "!=", "==", "%", "-", "/", "2", "2", "==", "%", "-", "1",
+       "u<-", "+", "%", "32", "1", "+", "1", "+", "1", "&&", "==", "+", "1", "u<-", "+", "%", "32", "1", "+", "1", "&&",
+       "==", "+", "1"] ∧
     noStr Gen.lits_prop_HandleDuties =
       ["u<-", "u<-", "+", "%", "32", "1", "+", "1", "*", "100", "==", "%", "-", "1", "-", "1", "u<-", "+", "%", "32",
        "1", "u<-", "+", "%", "32", "1"] ∧
     noStr Gen.lits_sync_HandleDuties =
-      ["u<-", "u<-", "+", "%", "32", "1", "+", "1", "*", "100", "&&", "==", "%", "-", "/", "2", "2", "==", "%", "-",
-       "==", "-", "1", "u<-", "+", "%", "32", "1", "&&", "+", "1", "u<-", "+", "%", "32", "1"] := by decide
+      ["u<-", "u<-", "+", "%", "32", "1", "&&", "||", "u!", "!=", "+", "1", "*", "100", "&&", "==", "%", "-", "/", "2",
+       "2", "==", "%", "-", "==", "-", "1", "u<-", "+", "%", "32", "1", "&&", "+", "1", "&&", "==", "+", "1", "u<-", "+",
+       "%", "32", "1"] := by decide
+
+/-- the blocks added by the fix are present: first tick of a new epoch / period with the next-fetch flag still set ⇒
+    fetch the current epoch / period first; late notice (the epoch / period just reset is already being ticked) ⇒ fetch
+    first; the epoch / period of the last tick is recorded on every tick -/
+theorem C16_tie_fix_blocks :
+    Gen.has_att_HandleDuties = [true, true, true, true, true] ∧
+    Gen.has_sync_HandleDuties = [true, true, true, true, true] := by decide
 
 /-- call-site facts: in every ticker branch the fetch-first path fetches then executes and the regular path
     executes BEFORE it re-fetches; `ResetEpoch`/`Reset` calls of the ticker / reorg / indices branches; the
-    proposer and sync-committee fetches reset the epoch (period) before adding, the attester fetch does not;
+    all three fetches reset the epoch (period) AFTER the successful beacon call and before adding;
     `processExecution` = store lookup → `shouldExecute` → `executeDuties` -/
 theorem C16_tie_callsites :
     Gen.calls_att_HandleDuties =
@@ -74,7 +80,7 @@ theorem C16_tie_callsites :
     Gen.calls_sync_HandleDuties =
       ["shouldFetchNextPeriod", "processFetching", "processExecution", "processExecution", "processFetching",
        "LastSlotOfSyncPeriod", "Reset", "shouldFetchNextPeriod", "Reset", "shouldFetchNextPeriod"] ∧
-    Gen.calls_att_fetch = ["CommitteeActiveIndices", "AttesterDuties", "Add"] ∧
+    Gen.calls_att_fetch = ["CommitteeActiveIndices", "AttesterDuties", "ResetEpoch", "Add"] ∧
     Gen.calls_prop_fetch = ["AllActiveIndices", "CommitteeActiveIndices", "ProposerDuties", "ResetEpoch", "Add"] ∧
     Gen.calls_sync_fetch =
       ["FirstEpochOfSyncPeriod", "EstimatedCurrentEpoch", "FirstEpochOfSyncPeriod", "AllActiveIndices",
@@ -126,188 +132,143 @@ theorem C16_window_meaning (n : Net) (clock slot : Nat) :
 /-! ## only the most recently fetched assignment -/
 
 /-- A dispatched duty belongs to the assignment returned by the most recent successful fetch for the tick's epoch
-    (period).  Proposer and sync committee: every event list.  Attester: every event list whose event slots never go
-    backwards (`envOK`). -/
-theorem C16_dispatch_only_latest (k : Kind) (n : Net) (clock0 : Nat) (r0 : FetchRes) (evs : List Event)
-    (henv : k = .att → envOK none clock0 evs = true) : onlyLatestOK k n (run k n clock0 r0 evs) = true := by
-  cases k with
-  | att => exact att_onlyLatest_run n clock0 r0 evs (henv rfl)
-  | prop => exact prop_onlyLatest_run n clock0 r0 evs
-  | sync => exact sync_onlyLatest_run n clock0 r0 evs
-
-/-- the full statement for the attester handler: no assumption on the order of notices -/
-def C16_dispatch_only_latest_attester_full : Prop :=
-  ∀ (n : Net) (clock0 : Nat) (r0 : FetchRes) (evs : List Event), n.ok = true → ticksIncreasing none evs = true →
-    onlyLatestOK .att n (run .att n clock0 r0 evs) = true
-
-/-- witness: epoch 2 fetched at slot 47; a reorg(previous) notice for slot 33 handled after that tick (it resets
-    epoch 1 only and sets `fetchFirst`); epoch 2 is fetched again at slot 64 on top of the old descriptors -/
-def C16_witness_stale : List Event :=
-  [.tick 47 47 (.ok [1] []) (.ok [1] [⟨64, 1, 7⟩]), .reorg 33 true false, .tick 64 64 (.ok [2] [⟨64, 2, 8⟩]) .fail]
-
-/-- FALSE of the code: the attester fetch does not reset the epoch it re-fetches -/
-theorem C16_dispatch_only_latest_attester_full_refuted : ¬ C16_dispatch_only_latest_attester_full := by
-  intro h
-  have := h ⟨32, 256⟩ 0 .noIdx C16_witness_stale (by decide) (by decide)
-  revert this
-  decide
-
-/-- the true statement (= `C16_dispatch_only_latest` at `k = att`); what is missing for the full one: a
-    `ResetEpoch(epoch)` before `Add` in `AttesterHandler.fetchAndProcessDuties` (the other two handlers have it) -/
-theorem C16_dispatch_only_latest_attester_partial (n : Net) (clock0 : Nat) (r0 : FetchRes) (evs : List Event)
-    (henv : envOK none clock0 evs = true) : onlyLatestOK .att n (run .att n clock0 r0 evs) = true :=
-  att_onlyLatest_run n clock0 r0 evs henv
-
-/-- the witness violates exactly the side condition; a slot-ordered run with a re-fetch satisfies it -/
-example : envOK none 0 C16_witness_stale = false ∧
-    envOK none 0 [.tick 47 47 (.ok [1] []) (.ok [1] [⟨64, 1, 7⟩]), .reorg 50 true false,
-      .tick 51 51 (.ok [2] []) (.ok [2] [⟨64, 2, 8⟩]), .tick 64 64 .fail .fail] = true ∧
-    execPairs (run .att ⟨32, 256⟩ 0 .noIdx [.tick 47 47 (.ok [1] []) (.ok [1] [⟨64, 1, 7⟩]), .reorg 50 true false,
-      .tick 51 51 (.ok [2] []) (.ok [2] [⟨64, 2, 8⟩]), .tick 64 64 .fail .fail]) = [(64, 2)] := by decide
+    (period) — every handler, network and event list, no hypothesis (every fetch now replaces the epoch's / period's
+    descriptors). -/
+theorem C16_dispatch_only_latest (k : Kind) (n : Net) (clock0 : Nat) (r0 : FetchRes) (evs : List Event) :
+    onlyLatestOK k n (run k n clock0 r0 evs) = true :=
+  onlyLatest_run k n clock0 r0 evs
 
 /-! ## exactly once if fetched -/
 
-/-- the full statement: for every run whose event slots never go backwards, at every tick whose clock equals its
-    slot, every duty of the most recent successful (and since then not voided) fetch for that epoch (period) is
-    dispatched -/
-def C16_dispatch_exactly_once_if_fetched_full (k : Kind) : Prop :=
-  ∀ (n : Net) (clock0 : Nat) (r0 : FetchRes) (evs : List Event), n.ok = true → envOK none clock0 evs = true →
-    exactlyOnceOK k n (run k n clock0 r0 evs) = true
-
-/-- The full statement HOLDS for the proposer handler. -/
-theorem C16_dispatch_exactly_once_if_fetched_proposer : C16_dispatch_exactly_once_if_fetched_full .prop :=
-  fun n clock0 r0 evs _ henv => prop_exactly_run n clock0 r0 evs henv
+/-- For every handler, network and event list in which no tick is handled after an event of a later slot (`envOK`;
+    notices may be arbitrarily late): at every tick whose clock equals its slot, every duty of the most recent
+    successful (and since then not voided) fetch for that epoch (period) is dispatched — and nothing is dispatched
+    twice. -/
+theorem C16_dispatch_exactly_once_if_fetched (k : Kind) (n : Net) (clock0 : Nat) (r0 : FetchRes)
+    (evs : List Event) (hn : n.ok = true) (henv : envOK none clock0 evs = true) :
+    exactlyOnceOK k n (run k n clock0 r0 evs) = true ∧ AtMostOnce (run k n clock0 r0 evs) := by
+  constructor
+  · cases k with
+    | att =>
+      have hspe : 0 < n.spe := by
+        simp only [Net.ok, Bool.and_eq_true, decide_eq_true_eq] at hn
+        omega
+      exact att_exactly_run n hspe clock0 r0 evs henv
+    | prop => exact prop_exactly_run n clock0 r0 evs henv
+    | sync => exact sync_exactly_run n clock0 r0 evs henv
+  · apply atMostOnce_run
+    have : ∀ (es : List Event) (lt : Option Nat) (now : Nat), envOK lt now es = true → ticksIncreasing lt es = true := by
+      intro es
+      induction es with
+      | nil => intro _ _ _; rfl
+      | cons e es ih =>
+        intro lt now h
+        cases e with
+        | tick s c r1 r2 =>
+          simp only [envOK, Bool.and_eq_true] at h
+          simp only [ticksIncreasing, Bool.and_eq_true]
+          exact ⟨h.1.1, ih _ _ h.2⟩
+        | reorg s p c => exact ih _ _ h
+        | indices c => exact ih _ _ h
+    exact this evs none clock0 henv
 
 /-- witness (DESIGN §8-8): duties of epoch 2 (slots 64, 66) fetched at slot 47; reorg(current) notice for slot 63
-    handled after the last tick of epoch 1; the tick of slot 64 dispatches nothing and re-fetches nothing -/
+    handled after the last tick of epoch 1 -/
 def C16_witness_reorg : List Event :=
-  [.tick 47 47 (.ok [1] []) (.ok [1, 2] [⟨64, 1, 7⟩, ⟨66, 2, 8⟩]), .reorg 63 false true, .tick 64 64 .fail .fail,
-   .tick 65 65 .fail .fail, .tick 66 66 .fail .fail]
+  [.tick 47 47 (.ok [1] []) (.ok [1, 2] [⟨64, 1, 7⟩, ⟨66, 2, 8⟩]), .reorg 63 false true,
+   .tick 64 64 (.ok [1, 2] [⟨64, 1, 7⟩, ⟨66, 2, 8⟩]) .fail, .tick 65 65 .fail .fail, .tick 66 66 .fail .fail]
 
-/-- witness, indices-change variant: only the first tick of the new epoch loses its duties -/
+/-- witness, indices-change variant -/
 def C16_witness_indices : List Event :=
   [.tick 47 47 (.ok [1] []) (.ok [1] [⟨64, 1, 7⟩]), .indices 63, .tick 64 64 (.ok [1] [⟨64, 1, 9⟩]) .fail]
 
 /-- witness, sync committee (8 slots per epoch, 4 epochs per period): period 1 fetched at slot 20, reorg(current)
-    notice for slot 31 (last slot of period 0) handled after its tick; the tick of slot 32 dispatches nothing, and the
-    handler then fetches period 2 instead of period 1 -/
+    notice for slot 31 (last slot of period 0) handled after its tick -/
 def C16_witness_sync : List Event :=
   [.tick 20 20 (.ok [] []) (.ok [1] [⟨0, 1, 7⟩]), .tick 31 31 .fail .fail, .reorg 31 false true,
    .tick 32 32 (.ok [1] [⟨0, 1, 9⟩]) .fail, .tick 33 33 .fail .fail]
 
-/-- FALSE of the code, attester handler (reorg(current) at the epoch boundary) -/
-theorem C16_dispatch_exactly_once_if_fetched_full_refuted : ¬ C16_dispatch_exactly_once_if_fetched_full .att := by
+/-- witness, notice handled one tick LATE: the reorg(current) notice for slot 63 is handled after the tick of slot 64 -/
+def C16_witness_late : List Event :=
+  [.tick 47 47 (.ok [1] []) (.ok [1, 2] [⟨65, 1, 7⟩, ⟨66, 2, 8⟩]), .tick 64 64 .fail .fail, .reorg 63 false true,
+   .tick 65 65 (.ok [1, 2] [⟨65, 1, 7⟩, ⟨66, 2, 8⟩]) .fail, .tick 66 66 .fail .fail]
+
+/-- witness, only-latest: reorg(previous) notice for slot 33 handled after the tick of slot 47; epoch 2 is fetched
+    again at slot 64 -/
+def C16_witness_stale : List Event :=
+  [.tick 47 47 (.ok [1] []) (.ok [1] [⟨64, 1, 7⟩]), .reorg 33 true false, .tick 64 64 (.ok [2] [⟨64, 2, 8⟩]) .fail]
+
+/-- REGRESSION (fix 1e0cc1057): on the four refutation witnesses of the handlers before the fix — which violated
+    exactly-once (the first four) resp. only-latest (the last) — the fixed handlers satisfy the property and dispatch the
+    duties that used to be lost; the witnesses satisfy `envOK`, so the theorems above cover them. -/
+theorem C16_regression_witnesses_now_pass :
+    exactlyOnceOK .att ⟨32, 256⟩ (run .att ⟨32, 256⟩ 0 .noIdx C16_witness_reorg) = true ∧
+    execPairs (run .att ⟨32, 256⟩ 0 .noIdx C16_witness_reorg) = [(64, 1), (66, 2)] ∧
+    exactlyOnceOK .att ⟨32, 256⟩ (run .att ⟨32, 256⟩ 0 .noIdx C16_witness_indices) = true ∧
+    execPairs (run .att ⟨32, 256⟩ 0 .noIdx C16_witness_indices) = [(64, 1)] ∧
+    exactlyOnceOK .sync ⟨8, 4⟩ (run .sync ⟨8, 4⟩ 20 (.ok [] []) C16_witness_sync) = true ∧
+    execPairs (run .sync ⟨8, 4⟩ 20 (.ok [] []) C16_witness_sync) = [(32, 1), (33, 1)] ∧
+    exactlyOnceOK .att ⟨32, 256⟩ (run .att ⟨32, 256⟩ 0 .noIdx C16_witness_late) = true ∧
+    execPairs (run .att ⟨32, 256⟩ 0 .noIdx C16_witness_late) = [(65, 1), (66, 2)] ∧
+    onlyLatestOK .att ⟨32, 256⟩ (run .att ⟨32, 256⟩ 0 .noIdx C16_witness_stale) = true ∧
+    execPairs (run .att ⟨32, 256⟩ 0 .noIdx C16_witness_stale) = [(64, 2)] ∧
+    envOK none 0 C16_witness_reorg = true ∧ envOK none 0 C16_witness_indices = true ∧
+    envOK none 20 C16_witness_sync = true ∧ envOK none 0 C16_witness_late = true := by decide
+
+/-- REGRESSION: the handlers BEFORE the fix (`runOld`) violate the property on the same witnesses — the lemmas that
+    refuted the full statements of the pre-fix tree; they pin what the fix repaired. -/
+theorem C16_regression_old_handlers_fail :
+    exactlyOnceOK .att ⟨32, 256⟩ (runOld .att ⟨32, 256⟩ 0 .noIdx C16_witness_reorg) = false ∧
+    execPairs (runOld .att ⟨32, 256⟩ 0 .noIdx C16_witness_reorg) = [] ∧
+    exactlyOnceOK .att ⟨32, 256⟩ (runOld .att ⟨32, 256⟩ 0 .noIdx C16_witness_indices) = false ∧
+    exactlyOnceOK .sync ⟨8, 4⟩ (runOld .sync ⟨8, 4⟩ 20 (.ok [] []) C16_witness_sync) = false ∧
+    execPairs (runOld .sync ⟨8, 4⟩ 20 (.ok [] []) C16_witness_sync) = [] ∧
+    exactlyOnceOK .att ⟨32, 256⟩ (runOld .att ⟨32, 256⟩ 0 .noIdx C16_witness_late) = false ∧
+    onlyLatestOK .att ⟨32, 256⟩ (runOld .att ⟨32, 256⟩ 0 .noIdx C16_witness_stale) = false := by decide
+
+/-! ### what `envOK` still excludes -/
+
+/-- the statement without the order condition of `envOK`: only the slot ticker's guarantee -/
+def C16_dispatch_exactly_once_if_fetched_anyorder (k : Kind) : Prop :=
+  ∀ (n : Net) (clock0 : Nat) (r0 : FetchRes) (evs : List Event), n.ok = true → ticksIncreasing none evs = true →
+    exactlyOnceOK k n (run k n clock0 r0 evs) = true
+
+/-- witness: duty of slot 64 (epoch 2) fetched at slot 47; a reorg(previous) notice carrying slot 64 (first half of
+    epoch 2: it resets epoch 2 but does not set `fetchNextEpoch`) is handled BEFORE the tick of slot 63; that tick fetches
+    epoch 1 first; at the tick of slot 64 nothing announces that epoch 2 has to be fetched again -/
+def C16_witness_tick_after_later_notice : List Event :=
+  [.tick 47 47 (.ok [1] []) (.ok [1] [⟨64, 1, 7⟩]), .tick 62 62 .fail .fail, .reorg 64 true false,
+   .tick 63 63 (.ok [1] []) .fail, .tick 64 64 .fail .fail]
+
+/-- STILL FALSE of the fixed code: a tick handled after a reorg(previous) notice of a later epoch -/
+theorem C16_dispatch_exactly_once_if_fetched_anyorder_refuted : ¬ C16_dispatch_exactly_once_if_fetched_anyorder .att := by
   intro h
-  have := h ⟨32, 256⟩ 0 .noIdx C16_witness_reorg (by decide) (by decide)
+  have := h ⟨32, 256⟩ 0 .noIdx C16_witness_tick_after_later_notice (by decide) (by decide)
   revert this
   decide
 
-/-- FALSE of the code, attester handler (indices change at the epoch boundary) -/
-theorem C16_dispatch_exactly_once_if_fetched_full_refuted_by_indices_change :
-    ¬ C16_dispatch_exactly_once_if_fetched_full .att := by
-  intro h
-  have := h ⟨32, 256⟩ 0 .noIdx C16_witness_indices (by decide) (by decide)
-  revert this
-  decide
+/-- that witness violates exactly the order condition: the tick of slot 63 comes after the notice of slot 64 -/
+example : envOK none 0 C16_witness_tick_after_later_notice = false ∧
+    ticksIncreasing none C16_witness_tick_after_later_notice = true := by decide
 
-/-- FALSE of the code, sync-committee handler (reorg(current) at the period boundary) -/
-theorem C16_dispatch_exactly_once_if_fetched_sync_full_refuted : ¬ C16_dispatch_exactly_once_if_fetched_full .sync := by
-  intro h
-  have := h ⟨8, 4⟩ 20 (.ok [] []) C16_witness_sync (by decide) (by decide)
-  revert this
-  decide
-
-/-- after the boundary reorg the attester handler dispatches NOTHING of epoch 2 and never asks the beacon node for it
-    again (the outputs of the three ticks of epoch 2 are empty) -/
-theorem C16_witness_reorg_outputs :
-    runFrom .att ⟨32, 256⟩ (stateAfter .att ⟨32, 256⟩ attInit (C16_witness_reorg.take 2)) (C16_witness_reorg.drop 2) =
-      [.execs 64 64 [], .execs 65 65 [], .execs 66 66 []] := by decide
-
-/-- The true statement: exactly-once-if-fetched for every handler, network and event list whose event slots never
-    go backwards, provided no reorg(current) / indices-change notice that resets the NEXT epoch's (period's) duties is
-    followed directly by a tick of a later epoch (period) (`quietOK`; always true for the proposer handler).
-    Missing for the full statement: the first tick of a new epoch (period) must fetch before it executes when the
-    duties of that epoch (period) were reset (see notes/C16.md for the repair). -/
-theorem C16_dispatch_exactly_once_if_fetched_partial (k : Kind) (n : Net) (clock0 : Nat) (r0 : FetchRes)
-    (evs : List Event) (hn : n.ok = true) (henv : envOK none clock0 evs = true)
-    (hquiet : quietOK k n (ffInit k) none evs = true) : exactlyOnceOK k n (run k n clock0 r0 evs) = true := by
-  cases k with
-  | att =>
-    have hspe : 0 < n.spe := by
-      simp only [Net.ok, Bool.and_eq_true, decide_eq_true_eq] at hn
-      omega
-    exact att_exactly_run n hspe clock0 r0 evs henv hquiet
-  | prop => exact prop_exactly_run n clock0 r0 evs henv
-  | sync => exact sync_exactly_run n clock0 r0 evs henv hquiet
-
-/-- "exactly once": every owed duty is dispatched (partial theorem above) and nothing is dispatched twice -/
-theorem C16_dispatch_exactly_once_if_fetched (k : Kind) (n : Net) (clock0 : Nat) (r0 : FetchRes)
-    (evs : List Event) (hn : n.ok = true) (henv : envOK none clock0 evs = true)
-    (hquiet : quietOK k n (ffInit k) none evs = true) :
-    exactlyOnceOK k n (run k n clock0 r0 evs) = true ∧ AtMostOnce (run k n clock0 r0 evs) := by
-  refine ⟨C16_dispatch_exactly_once_if_fetched_partial k n clock0 r0 evs hn henv hquiet, ?_⟩
-  apply atMostOnce_run
-  -- envOK implies increasing ticks
-  have : ∀ (es : List Event) (lt : Option Nat) (now : Nat), envOK lt now es = true → ticksIncreasing lt es = true := by
-    intro es
-    induction es with
-    | nil => intro _ _ _; rfl
-    | cons e es ih =>
-      intro lt now h
-      cases e with
-      | tick s c r1 r2 =>
-        simp only [envOK, Bool.and_eq_true] at h
-        simp only [ticksIncreasing, Bool.and_eq_true]
-        exact ⟨h.1.1, ih _ _ h.2⟩
-      | reorg s p c =>
-        simp only [envOK, Bool.and_eq_true] at h
-        exact ih _ _ h.2
-      | indices c =>
-        simp only [envOK, Bool.and_eq_true] at h
-        exact ih _ _ h.2
-  exact this evs none clock0 henv
-
-/-- the three refutation witnesses violate exactly the side condition `quietOK` (and satisfy `envOK`) -/
-example : envOK none 0 C16_witness_reorg = true ∧ quietOK .att ⟨32, 256⟩ (ffInit .att) none C16_witness_reorg = false ∧
-    envOK none 0 C16_witness_indices = true ∧ quietOK .att ⟨32, 256⟩ (ffInit .att) none C16_witness_indices = false ∧
-    envOK none 20 C16_witness_sync = true ∧ quietOK .sync ⟨8, 4⟩ (ffInit .sync) none C16_witness_sync = false := by
-  decide
-
-/-- non-vacuity of the partial theorem: runs with reorg and indices-change notices, a fetch failure, an epoch
-    boundary and a sync-period boundary that satisfy every hypothesis and dispatch duties -/
+/-- non-vacuity of `C16_dispatch_exactly_once_if_fetched`: runs with reorg and indices-change notices (one of them
+    handled late), a fetch failure, an epoch boundary and a sync-period boundary that satisfy every hypothesis and
+    dispatch duties -/
 example :
     let evs : List Event :=
       [.tick 47 47 (.ok [1] []) (.ok [1, 2] [⟨64, 1, 7⟩, ⟨66, 2, 8⟩]), .reorg 50 false true,
        .tick 51 51 (.ok [1, 2] [⟨64, 1, 9⟩, ⟨66, 2, 10⟩]) .fail, .indices 51, .tick 52 52 .fail .fail,
-       .tick 63 63 (.ok [1] []) (.ok [1, 2] [⟨64, 1, 11⟩, ⟨66, 2, 12⟩]), .tick 64 64 .fail .fail, .tick 66 66 .fail .fail]
-    (⟨32, 256⟩ : Net).ok = true ∧ envOK none 0 evs = true ∧ quietOK .att ⟨32, 256⟩ (ffInit .att) none evs = true ∧
+       .tick 63 63 (.ok [1] []) (.ok [1, 2] [⟨64, 1, 11⟩, ⟨66, 2, 12⟩]), .tick 64 64 .fail .fail, .indices 63,
+       .tick 65 65 (.ok [1, 2] [⟨66, 2, 13⟩]) .fail, .tick 66 66 .fail .fail]
+    (⟨32, 256⟩ : Net).ok = true ∧ envOK none 0 evs = true ∧
     execPairs (run .att ⟨32, 256⟩ 0 .noIdx evs) = [(64, 1), (66, 2)] := by decide
 
 example :
     let evs : List Event :=
       [.tick 20 20 (.ok [1] [⟨0, 1, 5⟩]) (.ok [1] [⟨0, 1, 7⟩]), .reorg 29 false true,
-       .tick 30 30 (.ok [1] [⟨0, 1, 8⟩]) .fail, .tick 31 31 .fail .fail, .tick 32 32 .fail .fail]
-    (⟨8, 4⟩ : Net).ok = true ∧ envOK none 20 evs = true ∧ quietOK .sync ⟨8, 4⟩ (ffInit .sync) none evs = true ∧
+       .tick 30 30 (.ok [1] [⟨0, 1, 8⟩]) .fail, .tick 31 31 .fail .fail, .reorg 31 false true,
+       .tick 32 32 (.ok [1] [⟨0, 1, 9⟩]) .fail]
+    (⟨8, 4⟩ : Net).ok = true ∧ envOK none 20 evs = true ∧
     execPairs (run .sync ⟨8, 4⟩ 20 (.ok [] []) evs) = [(20, 1), (30, 1), (31, 1), (32, 1)] := by decide
-
-/-! ## the repair (notes/C16.md; NOT applied to /repo) -/
-
-/-- For the model of the repaired attester and sync-committee handlers (`stepR`: at the first tick of a new epoch /
-    period with `fetchNextEpoch` / `fetchNextPeriod` still set, fetch the current epoch / period before executing)
-    the FULL exactly-once-if-fetched statement holds: no `quietOK` side condition. -/
-theorem C16_repaired_exactly_once_if_fetched_full (n : Net) (clock0 : Nat) (r0 : FetchRes) (evs : List Event)
-    (hn : n.ok = true) (henv : envOK none clock0 evs = true) :
-    exactlyOnceOK .att n (runR .att n clock0 r0 evs) = true ∧
-    exactlyOnceOK .sync n (runR .sync n clock0 r0 evs) = true := by
-  have hspe : 0 < n.spe := by
-    simp only [Net.ok, Bool.and_eq_true, decide_eq_true_eq] at hn
-    omega
-  exact ⟨att_exactly_runR n hspe clock0 r0 evs henv, sync_exactly_runR n clock0 r0 evs henv⟩
-
-/-- on the boundary-reorg witness the repaired model dispatches both duties of epoch 2, the model of the existing
-    code none -/
-theorem C16_repaired_dispatches_witness :
-    execPairs (runR .att ⟨32, 256⟩ 0 .noIdx witnessReorg) = [(64, 1), (66, 2)] ∧
-    execPairs (run .att ⟨32, 256⟩ 0 .noIdx witnessReorg) = [] := repaired_dispatches_witness
 
 end Ssv.Duties
